@@ -1549,7 +1549,17 @@ static void worker(const vh::Args &a, int w, int J, const Plan &pl, const std::s
     if (fate != "ok") {
       r.what = "[tetris_unit] TetrisLegalizer faulted (" + fate + ") on an in-domain instance at 2^22 magnitude: " + summarize(diag);
       r.input = r.ops;
+      for (size_t j = 0; j < v.size(); ++j) {  // name the instance
+        std::string o2, d2;
+        std::string f2 = vh::isolated([&](std::ostream &os) { tetImpl(v[j], os); }, o2, pl.timeout, &d2);
+        if (f2 != "ok") {
+          r.what = "[tetris_unit] TetrisLegalizer(rows, cells).run() on an in-domain instance (2^22 magnitude) ended with " + f2 + ": " + summarize(d2);
+          r.input = v[j].ops();
+          break;
+        }
+      }
       r.impl = "";
+      r.ops = "";
     }
     writeRec(f, r);
   }
@@ -1587,7 +1597,17 @@ static void worker(const vh::Args &a, int w, int J, const Plan &pl, const std::s
     if (fate != "ok") {
       r.what = "[incrnet_unit] IncrNetModel faulted (" + fate + ") on an in-domain session at 2^22 magnitude: " + summarize(diag);
       r.input = r.ops;
+      for (size_t j = 0; j < v.size(); ++j) {  // name the session
+        std::string o2, d2;
+        std::string f2 = vh::isolated([&](std::ostream &os) { incImpl(v[j], os); }, o2, pl.timeout, &d2);
+        if (f2 != "ok") {
+          r.what = "[incrnet_unit] IncrNetModel build + updateCellPos session (positions within 2^23) ended with " + f2 + ": " + summarize(d2);
+          r.input = v[j].ops();
+          break;
+        }
+      }
       r.impl = "";
+      r.ops = "";
     }
     writeRec(f, r);
   }
@@ -1808,6 +1828,31 @@ static int replay(const vh::Args &a, vh::Out &out) {
     std::string output, diag;
     std::string fate = vh::isolated([&](std::ostream &os) { subImpl(s, os); }, output, 60, &diag);
     if (fate != "ok") out.fail("replay", "computeSubdivisions ended with " + fate + ": " + summarize(diag), in);
+  } else if (first == "tnew") {
+    TetInst t;
+    std::string op;
+    while (is >> op) {
+      if (op == "trow") { int a, b, c, d, o; is >> a >> b >> c >> d >> o; t.rows.emplace_back(a, b, c, d, (CellOrientation)o); }
+      else if (op == "tcell") {
+        int w, h, p, tx, ty, o; is >> w >> h >> p >> tx >> ty >> o;
+        t.w.push_back(w); t.h.push_back(h); t.pol.push_back((CellRowPolarity)p); t.tx.push_back(tx); t.ty.push_back(ty); t.o.push_back((CellOrientation)o);
+      }
+    }
+    std::string output, diag;
+    std::string fate = vh::isolated([&](std::ostream &os) { tetImpl(t, os); }, output, 60, &diag);
+    if (fate != "ok") out.fail("replay", "TetrisLegalizer::run ended with " + fate + ": " + summarize(diag), in);
+  } else if (first == "inew") {
+    IncInst t;
+    is >> t.nbCells;
+    std::string op;
+    while (is >> op) {
+      if (op == "inet") { int k; is >> k; std::vector<int> c(k), o(k); for (int i = 0; i < k; ++i) is >> c[i] >> o[i]; t.netCells.push_back(c); t.netOffs.push_back(o); }
+      else if (op == "ibuild") { for (int i = 0; i < t.nbCells; ++i) { int p; is >> p; t.pos.push_back(p); } }
+      else if (op == "iupd") { int c, p; is >> c >> p; t.upd.push_back({c, p}); }
+    }
+    std::string output, diag;
+    std::string fate = vh::isolated([&](std::ostream &os) { incImpl(t, os); }, output, 60, &diag);
+    if (fate != "ok") out.fail("replay", "IncrNetModel session ended with " + fate + ": " + summarize(diag), in);
   } else if (first == "t1d") {
     size_t n = 0, m = 0;
     is >> n >> m;
